@@ -83,10 +83,14 @@ pub fn generate(
                     }
                     CustomType::Yes(_) => {
                         // Once signed bitenum or bitfield-base-data-types are a thing, we'll need to pay special attention to sign extension here
+                        // The raw value is bound to the exact type that matches the number of bits of this field. That way,
+                        // a custom type of a different width is a compile error even if the field has no getter
                         if field_definition.use_regular_int {
-                            quote! { field_value.raw_value() }
+                            let primitive_type = &field_definition.primitive_type;
+                            quote! { { let raw_field_value: #primitive_type = field_value.raw_value(); raw_field_value } }
                         } else {
-                            quote! { field_value.raw_value().value() }
+                            let raw_type = TokenStream2::from_str(format!("arbitrary_int::u{}", total_number_bits).as_str()).unwrap();
+                            quote! { { let raw_field_value: #raw_type = field_value.raw_value(); raw_field_value.value() } }
                         }
                     }
                 };
